@@ -776,6 +776,9 @@ class LLUDPMessageLogEntry(AbstractMessageLogEntry):
                             deserialized = block.deserialize_var(var_name)
                         except KeyError:
                             continue
+                        except Exception:
+                            # Malformed field contents, there are no subfields to match on.
+                            continue
                         # Discard the tag if this is a tagged union, we only want the value
                         if isinstance(deserialized, TaggedUnion):
                             deserialized = deserialized.value
